@@ -171,3 +171,29 @@ Definition classify_callee (c : string) : ambient :=
   else if String.prefix "os/user" c || String.prefix "os.Get" c || String.prefix "os.Lookup" c || String.prefix "os.Environ" c || String.prefix "os.User" c || String.prefix "os.Temp" c || String.prefix "os.Args" c then Environment
   else if String.prefix "os.Hostname" c || String.prefix "net." c then Host
   else Process.
+
+(** * One loaded document generated again and again.  A generation gets the caller's document VALUE; what it leaves of
+      that value is what the next generation from the same value reads. *)
+Section OneDocument.
+  Context {doc out : Type}.
+  Variable gen : doc -> out * doc.
+  Definition out_of (d : doc) : out := fst (gen d).
+  Definition left_of (d : doc) : doc := snd (gen d).
+  Fixpoint outputs (n : nat) (d : doc) : list out :=
+    match n with O => [] | S k => out_of d :: outputs k (left_of d) end.
+  (** the changes a generation makes to its input do not show in the next output *)
+  Definition input_stable : Prop := forall d, out_of (left_of d) = out_of d.
+End OneDocument.
+
+(** The part of Generate that touches the caller's document besides filtering and pruning (both idempotent): with
+    embedded-spec, InternalizeRefs copies the components of OTHER documents that the document refers to into its own
+    components.  A generation declares one local type per local component. *)
+Record ldoc := { ld_locals : list string; ld_external : list string }.
+Definition has (l : list string) (x : string) : bool := existsb (String.eqb x) l.
+Definition internalise (d : ldoc) : ldoc :=
+  {| ld_locals := ld_locals d ++ filter (fun e => negb (has (ld_locals d) e)) (ld_external d); ld_external := [] |}.
+Definition lgen (embedded : bool) (d : ldoc) : list string * ldoc :=
+  (ld_locals d, if embedded then internalise d else d).
+(** which of the names [watch] each of n generations from one loaded document declares locally *)
+Definition declared_of (embedded : bool) (d : ldoc) (watch : list string) (n : nat) : list (list string) :=
+  map (fun o => filter (has o) watch) (outputs (lgen embedded) n d).
